@@ -1,0 +1,91 @@
+//go:build verif
+
+// Package verifhook re-exports internal packages of thriftrw so that the external
+// verification harness (/verif/harness) can drive them. It only exists under the
+// `verif` build tag and adds no behaviour.
+package verifhook
+
+import (
+	"io"
+	"os/exec"
+
+	"go.uber.org/thriftrw/compile"
+	"go.uber.org/thriftrw/internal/compare"
+	"go.uber.org/thriftrw/internal/concurrent"
+	"go.uber.org/thriftrw/internal/envelope"
+	"go.uber.org/thriftrw/internal/frame"
+	"go.uber.org/thriftrw/internal/git"
+	"go.uber.org/thriftrw/internal/multiplex"
+	"go.uber.org/thriftrw/internal/plugin"
+	"go.uber.org/thriftrw/internal/process"
+	"go.uber.org/thriftrw/protocol"
+)
+
+// internal/frame
+type (
+	FrameClient  = frame.Client
+	FrameReader  = frame.Reader
+	FrameWriter  = frame.Writer
+	FrameServer  = frame.Server
+	FrameHandler = frame.Handler
+)
+
+func NewFrameClient(w io.Writer, r io.Reader) *frame.Client { return frame.NewClient(w, r) }
+func NewFrameReader(r io.Reader) *frame.Reader              { return frame.NewReader(r) }
+func NewFrameWriter(w io.Writer) *frame.Writer              { return frame.NewWriter(w) }
+func NewFrameServer(r io.Reader, w io.Writer) *frame.Server { return frame.NewServer(r, w) }
+
+// internal/envelope
+type (
+	EnvelopeTransport = envelope.Transport
+	EnvelopeClient    = envelope.Client
+	EnvelopeHandler   = envelope.Handler
+	EnvelopeServer    = envelope.Server
+	ErrUnknownMethod  = envelope.ErrUnknownMethod
+)
+
+func NewEnvelopeClient(p protocol.Protocol, t envelope.Transport) envelope.Client {
+	return envelope.NewClient(p, t)
+}
+func NewEnvelopeServer(p protocol.Protocol, h envelope.Handler) envelope.Server {
+	return envelope.NewServer(p, h)
+}
+
+// internal/multiplex
+type MultiplexHandler = multiplex.Handler
+
+func NewMultiplexClient(name string, c envelope.Client) envelope.Client {
+	return multiplex.NewClient(name, c)
+}
+func NewMultiplexHandler() multiplex.Handler { return multiplex.NewHandler() }
+
+// internal/plugin
+type (
+	PluginHandle           = plugin.Handle
+	PluginServiceGenerator = plugin.ServiceGenerator
+	PluginFlag             = plugin.Flag
+	PluginFlags            = plugin.Flags
+	MultiHandle            = plugin.MultiHandle
+	MultiServiceGenerator  = plugin.MultiServiceGenerator
+)
+
+func NewTransportHandle(name string, t envelope.Transport) (plugin.Handle, error) {
+	return plugin.NewTransportHandle(name, t)
+}
+
+// internal/process
+type ProcessClient = process.Client
+
+func NewProcessClient(cmd *exec.Cmd) (*process.Client, error) { return process.NewClient(cmd) }
+
+// internal/concurrent
+func ConcurrentRange(coll, fn interface{}) error { return concurrent.Range(coll, fn) }
+
+// internal/compare, internal/git
+type (
+	ComparePass = compare.Pass
+	Diagnostic  = compare.Diagnostic
+)
+
+func CompareModules(p *compare.Pass, from, to *compile.Module) { p.CompareModules(from, to) }
+func GitCompare(path string) (compare.Pass, error)             { return git.Compare(path) }
